@@ -93,7 +93,7 @@ def oracle(policy, actions, recs, snap):
         else:
             oc = outcome.get(completed)
             ep, rp = snap.get('exception_prop'), snap.get('result_prop')
-            want_exc = {'e': 'KeyError', 'c': 'CancelledError'}.get(oc)
+            want_exc = {'e': TG.raised_name(completed), 'c': 'CancelledError'}.get(oc)
             if ep != want_exc:
                 bad.append(('c10:exception-prop', f'completed ended {oc} but .exception is {ep}'))
             if oc == 'v' and not (rp and rp[0] == 'ok' and TG.same_value(
